@@ -103,7 +103,7 @@ def main():
     for o in guards: groups[(o['unit'], o['name'].split('/reach@')[0])].append(o['status'])
     vac = [f"{u}:{n}" for (u, n), sts in groups.items() if 'reachable' not in sts]        # every guarded path of the function is infeasible => contradictory contract/axioms
     if vac: broken.append("vacuous hypotheses (must-fail obligation was 'proved'): " + "; ".join(vac[:5]))
-    if not guards and not broken: broken.append("no vacuity guard was generated")
+    if not guards and not broken and not undecided: broken.append("no vacuity guard was generated")
     # ---- supplements (bounded; never counted as proved)
     supplements = []
     for sup, fut in sup_fut:
@@ -188,7 +188,8 @@ def main():
             return {'unit': u, 'edit': note, 'outcome': 'refuted' if ref else 'proved', 'refuted_for_this_property': bool(mine), 'first_refuted': (mine or ref or [None])[0], 'expected': 'refuted' if should_kill else 'proved'}
         with _cf.ThreadPoolExecutor(4) as mp_: table = list(mp_.map(run_mut, jobs))
         thorough['self_mutation'] = {'mutants': len([x for x in table if x['expected'] == 'refuted']), 'killed': len([x for x in table if x['expected'] == 'refuted' and x['outcome'] == 'refuted']),
-                                     'survivors': [x for x in table if x['expected'] == 'refuted' and x['outcome'] != 'refuted'],
+                                     'undecided_not_counted_as_killed': [x for x in table if x['expected'] == 'refuted' and x['outcome'] in ('unsupported', 'crash', 'edit-not-applicable')],
+                                     'survivors': [x for x in table if x['expected'] == 'refuted' and x['outcome'] == 'proved'],
                                      'equivalent_edits_kept_green': len([x for x in table if x['expected'] == 'proved' and x['outcome'] == 'proved']),
                                      'false_alarms_on_equivalent_edits': [x for x in table if x['expected'] == 'proved' and x['outcome'] != 'proved'], 'table': table}
     # ---- evidence
